@@ -48,7 +48,7 @@ class Built:
 def _field_tree(rng, depth, racc):
     ACT = {"r": ["R"], "w": ["W"], "rw": ["R", "W", "RW", "RW1C", "RW1S"]}
     k = rng.below(100)
-    if depth >= 2 or k < 55:
+    if depth >= 3 or k < (40 if depth == 0 else 55):
         act = rng.choice(ACT[racc] + ["ResRAW0", "ResR0W0"])
         kind = rng.below(12)
         if kind < 6:
@@ -136,7 +136,14 @@ def build_action(cfg):
 
 def gen_mux(rng):
     from worlds.mux import WORLD
-    return WORLD.gen_config(rng, "C19")
+    cfg = WORLD.gen_config(rng, "C19")
+    if rng.chance(0.15):
+        # a register may be mapped with fewer addresses than its width needs (accepted by the
+        # memory map and the multiplexer; only elaboration is C19's concern here)
+        for r in cfg["regs"]:
+            if r["size"] > 1 and rng.chance(0.5):
+                r["size"] -= 1
+    return cfg
 
 
 def build_mux(cfg):
@@ -238,15 +245,17 @@ def build_bridge(cfg):
 def gen_evmon(rng):
     from worlds.evmon import TRIGGERS
     return {"srcs": [rng.choice(TRIGGERS) for _ in range(rng.choice([0, 1, 2, 3, 5, 9]))],
-            "trigger": rng.choice(TRIGGERS)}
+            "trigger": rng.choice(TRIGGERS), "readd": rng.bits(9) if rng.chance(0.3) else 0}
 
 
 def build_evmon(cfg):
     from amaranth_soc import event
     em = event.EventMap()
     srcs = [event.Source(trigger=t, path=(f"s{i}",)) for i, t in enumerate(cfg["srcs"])]
-    for s in srcs:
+    for i, s in enumerate(srcs):
         em.add(s)
+        if (cfg.get("readd", 0) >> i) & 1:
+            em.add(srcs[(i * 7) % (i + 1)])      # a source that is already in the map, again
     dut = hw.construct(event.Monitor, em, trigger=cfg["trigger"])
     b = Built(dut, "event.Monitor")
     b.add_component_signature()
@@ -266,8 +275,10 @@ def build_csrevmon(cfg):
     from amaranth_soc import csr, event
     em = event.EventMap()
     srcs = [event.Source(trigger=t, path=(f"s{i}",)) for i, t in enumerate(cfg["srcs"])]
-    for s in srcs:
+    for i, s in enumerate(srcs):
         em.add(s)
+        if (cfg.get("readd", 0) >> i) & 1:
+            em.add(srcs[(i * 7) % (i + 1)])      # a source that is already in the map, again
     kw = {"name": "mon"} if cfg["al"] else {}
     dut = hw.construct(csr.EventMonitor, em, trigger=cfg["trigger"], data_width=cfg["dw"],
                        alignment=cfg["al"], **kw)
@@ -318,8 +329,7 @@ def build_wbdec(cfg):
     from amaranth_soc import wishbone
     from amaranth_soc.memory import MemoryMap
     from worlds.wbdec import log2
-    spell = (lambda fs: {wishbone.Feature(f) for f in fs}) if cfg.get("feats_as") == "enum" \
-        else (lambda fs: set(fs))
+    spell = hw.feature_speller(cfg.get("feats_as"))
     kw = {"name": "dec"} if cfg.get("twin_decoder") else {}      # rarely used public parameter
     dut = hw.construct(wishbone.Decoder, addr_width=cfg["aw"], data_width=cfg["dw"],
                        granularity=cfg["g"], features=spell(cfg["feats"]), alignment=cfg["al"], **kw)
@@ -360,8 +370,7 @@ def gen_arbiter(rng):
 
 def build_arbiter(cfg):
     from amaranth_soc import wishbone
-    spell = (lambda fs: {wishbone.Feature(f) for f in fs}) if cfg.get("feats_as") == "enum" \
-        else (lambda fs: set(fs))
+    spell = hw.feature_speller(cfg.get("feats_as"))
     dut = hw.construct(wishbone.Arbiter, addr_width=cfg["aw"], data_width=cfg["dw"],
                        granularity=cfg["g"], features=spell(cfg["feats"]))
     b = Built(dut, "wishbone.Arbiter")
